@@ -315,15 +315,19 @@ impl Tablet {
         }
 
         if any_updated {
-            // Now that we know we have some nodes to update we need to go over
-            // per-dc nodes and update them too.
-            for dc_nodes in self.replicas.per_dc.values_mut() {
-                for (node, _) in dc_nodes.iter_mut() {
-                    if let Some(new_node) = recreated_nodes.get(&node.host_id) {
-                        *node = Arc::clone(new_node);
-                    }
+            // Now that we know we have some nodes to update we need to update
+            // per-dc nodes too. A recreated node may have changed its datacenter,
+            // so rebuild the per-dc index from `all` instead of swapping in place.
+            let mut per_dc: HashMap<String, Vec<(Arc<Node>, Shard)>> = HashMap::new();
+            for (replica, shard) in self.replicas.all.iter() {
+                if let Some(dc) = replica.datacenter.as_ref() {
+                    per_dc
+                        .entry(dc.to_string())
+                        .or_default()
+                        .push((Arc::clone(replica), *shard));
                 }
             }
+            self.replicas.per_dc = per_dc;
         }
     }
 
